@@ -171,6 +171,12 @@ class Scenario:
                 net.put_behind(n.raw_endpoint, box(boxname, ip, kind))
             n.name = name
             n.add(cls)
+            if case.get("disc"):
+                # a second overlay on the same endpoint and peer graph, as in the default configuration
+                from ipv8.peerdiscovery.community import DiscoveryCommunity
+                d = n.add(DiscoveryCommunity)
+                d.my_estimated_lan = n.address
+                d.my_estimated_wan = n.address
             # production start-up state: the WAN estimate starts out as the LAN estimate (the host's own address)
             n.overlay.my_estimated_lan = n.address
             n.overlay.my_estimated_wan = n.address
@@ -336,6 +342,12 @@ class Scenario:
             self.drain_fifo()
             if n is not self.A and n.new:
                 n.overlay.send_introduction_request(self.peer_at(n, self.I))
+                self.drain_fifo()
+        if self.case.get("disc"):
+            # afterwards every candidate also contacts the introducer in the discovery overlay (which registers the
+            # same key with a fresh Peer object that knows the source address only)
+            for n in [*self.fillers, self.B]:
+                n.overlays[1].walk_to(target)
                 self.drain_fifo()
         for n in [self.A, *self.fillers, self.B]:
             if not self.is_peer(self.I, n) or not self.is_peer(n, self.I):
@@ -546,7 +558,7 @@ def configurations() -> list[dict]:
 def base_case(cfg: dict, idx: int) -> dict:
     return {"natA": cfg["natA"], "natB": cfg["natB"], "place": cfg["place"], "style": cfg["style"],
             "b_new": cfg["b_new"], "fillers": [["pub", 0]] * (cfg["k"] - 1), "rseed": idx, "rounds": 1,
-            "picks": [], "early": 0, "order": 0, "alike": (idx // 5) % 2}
+            "picks": [], "early": 0, "order": 0, "alike": (idx // 5) % 2, "disc": (idx // 10) % 2}
 
 
 def _strategy(cfg: dict):
@@ -563,6 +575,7 @@ def _strategy(cfg: dict):
         "early": st.integers(0, 2),
         "order": st.integers(0, 23),
         "alike": st.integers(0, 1),
+        "disc": st.integers(0, 1),
     })
 
 
